@@ -84,6 +84,23 @@ PadC(e, pre, post) ==
            StyIsOn(w, segs, pre, 1, pad[1]) /\ StyIsOn(w, segs, pre, pad[1] + n + 1, pad[1] + n + pad[2]))
      \o KindC(e, pre, post, v.k)
 
+\* a huge padding (zero and huge widths are part of C09's quantifier): judged on its length and on sampled positions
+PadHugeC(e, pre, post) ==
+  LET v == pre[e.r] n == Len(v.t)
+      pad == PadOf(e.a.m, n, e.a.width)
+      f == e.a.fill[1]
+      ext == e.a.extend = 1
+      WantChar(p) == IF p < pad[1] THEN f ELSE IF p < pad[1] + n THEN v.t[p - pad[1] + 1] ELSE f
+      WantSty(p) == IF p < pad[1] THEN (IF ext THEN StyAt0(v, 0) ELSE << >>)
+                    ELSE IF p < pad[1] + n THEN v.s[p - pad[1] + 1]
+                    ELSE (IF ext THEN StyAt0(v, n - 1) ELSE << >>)
+  IN Cl("C09.huge_width_terminates", TRUE, e.out = "ok")
+  \o IF e.out # "ok" THEN None ELSE
+        Cl("C12.huge_length", TRUE, e.o.len = pad[1] + n + pad[2])
+     \o Cl("C12.huge_text_samples", TRUE, \A k \in DOMAIN e.o.pos : e.o.chars[k] = WantChar(e.o.pos[k]))
+     \o Cl("C12.huge_sty_samples", HasStyle(v), \A k \in DOMAIN e.o.pos : Equiv(e.o.sty[k], WantSty(e.o.pos[k])))
+     \o Cl("C09.huge_nothing_beyond_end", TRUE, e.o.beyond = 0)
+
 ---------------------------------------------------------------------------
 StripC(e, pre, post) ==
   LET v == pre[e.r]
@@ -254,6 +271,7 @@ FmtC(e, pre, post) ==
 TextOpClauses(e, pre, post) ==
   CASE e.op = "case" -> CaseC(e, pre, post)
     [] e.op = "pad" -> PadC(e, pre, post)
+    [] e.op = "pad_huge" -> PadHugeC(e, pre, post)
     [] e.op = "strip" -> StripC(e, pre, post)
     [] e.op = "rmfix" -> RmfixC(e, pre, post)
     [] e.op = "replace" -> ReplaceC(e, pre, post)
